@@ -233,6 +233,51 @@ func TestBaseAndOffenders(t *testing.T) {
 				}
 			}
 		}
+		// an offender as a surplus value of an assignment (more values than targets is accepted by the grammar)
+		{
+			count := 0
+			gen.WalkAll(gen.CloneProg(base), func(n *gen.Node) {
+				if n.Kind == gen.Assign && n.Op == "=" {
+					count++
+				}
+			})
+			for k := 0; k < count; k++ {
+				for oi := range offenders {
+					if !all && rapid.IntRange(0, 15).Draw(t, "pick-surplus") != 0 {
+						continue
+					}
+					o := offenders[oi]
+					p2 := gen.CloneProg(base)
+					off := o.e()
+					seen := 0
+					gen.WalkAll(p2, func(n *gen.Node) {
+						if n.Kind == gen.Assign && n.Op == "=" {
+							if seen == k {
+								n.Rhs = append(n.Rhs, off)
+							}
+							seen++
+						}
+					})
+					p2 = gen.FixAll(p2)
+					msrc := gen.Print(p2, gen.Minimal{})
+					span := [2]int{off.P.Start, off.P.End}
+					if span[0] < 0 || span[1] <= span[0] || span[1] > len(msrc) {
+						continue
+					}
+					rp := replay{Src: msrc, Offender: o.name + "@surplus-value-of-assignment", Span: span, Expect: "rejected"}
+					if o.v1 {
+						err, crash := loadV1(msrc)
+						checkRejected(t, "slots", rp, "v1", err, crash, span)
+					}
+					if o.v2 {
+						rp.V2 = true
+						err, crash := loadV2(msrc, v2fns)
+						checkRejected(t, "slots", rp, "v2", err, crash, span)
+					}
+					evid.Case(fmt.Sprintf("surplus|%d|%s", k, o.name), true, "offender/"+o.name, "slot/surplus-value")
+				}
+			}
+		}
 		// break / continue at every statement position outside loops
 		prog := gen.CloneProg(base)
 		for i, ss := range gen.StmtSlots(&prog) {
@@ -612,6 +657,17 @@ func TestFixedOffenders(t *testing.T) {
 		{"for x in [1] { }\nif false { } else { break }", "break", true, true},
 		{"m = {\"a\": [1, {\"b\": nosuch()}]}", "nosuch()", true, true},
 		{"len(a = nosuch())", "nosuch()", true, false},
+		{"a = 1, nosuch()", "nosuch()", true, true},
+		{"a, b = 1, 2,\n nosuch(3)", "nosuch(3)", false, true},
+		{"for a = 0, nosuch(); a < 1; a = a + 1 {}", "nosuch()", true, true},
+		{"a = 1, [1, {\"k\": pval()}]", "pval()", true, true},
+		// a pattern alias defined in one branch is not visible in a sibling branch, after the block, or before its definition
+		{"x = 1\nif x == 1 { add_pattern(\"my_num\", \"\\\\d+\") } else { grok(_, \"%{my_num:n}\") }", "grok(_, \"%{my_num:n}\")", true, false},
+		{"x = 1\nif x == 1 { add_pattern(\"my_num\", \"\\\\d+\") } elif x == 2 { y = 1 } else { z = grok(_, \"%{my_num:n}\") }", "grok(_, \"%{my_num:n}\")", true, false},
+		{"if true { add_pattern(\"my_num\", \"\\\\d+\") }\ngrok(_, \"%{my_num:n}\")", "grok(_, \"%{my_num:n}\")", true, false},
+		{"for i in [1] { add_pattern(\"my_num\", \"\\\\d+\") }\ngrok(_, \"%{my_num:n}\")", "grok(_, \"%{my_num:n}\")", true, false},
+		{"grok(_, \"%{my_num:n}\")\nadd_pattern(\"my_num\", \"\\\\d+\")", "grok(_, \"%{my_num:n}\")", true, false},
+		{"if false { } elif true { add_pattern(\"a1\", \"x\") } elif true { grok(_, \"%{a1}\") }", "grok(_, \"%{a1}\")", true, false},
 	}
 	v2fns := sem.V2Fns()
 	for i, c := range cases {
